@@ -24,7 +24,7 @@ def cfg(exits, invariants=INVARIANTS):
 MODE_FLAG = {'normal': [], 'keep': ['--keep'], 'act': ['--act']}
 PRE_VARIANTS = {
     'usage': [dict(argv=['--no-such-option', 'c.case']), dict(argv=['missing-file.case']),
-              dict(argv=['c.case', 'superfluous'])],
+              dict(argv=['c.case', 'superfluous']), dict(argv=['--suite', 'missing-file.suite', 'c.case'])],
     'file-access': [dict(inject=('setup', 'including missing-file.xly')),
                     dict(inject=('cleanup', 'including missing-file.xly'))],
     # exits non-zero; cannot be executed: no such program, a file that is not executable
